@@ -575,7 +575,10 @@ func (s *Sim) exec(i int, o Op) {
 		if len(env.Conns) == 0 {
 			return
 		}
-		sc := env.Conns[o.A%len(env.Conns)]
+		sc := env.Conns[len(env.Conns)-1]
+		if o.A >= 0 {
+			sc = env.Conns[o.A%len(env.Conns)]
+		}
 		st, ok := s.resolveConnEvent(sc, o)
 		if !ok {
 			return
@@ -606,6 +609,7 @@ func (s *Sim) exec(i int, o Op) {
 			}
 		case 5:
 			d = 3 * time.Hour
+			s.k.Quiesce()
 			for _, c := range s.calls {
 				if c.Invoked && !c.Returned {
 					d = 10 * time.Second // a waiting round-robin pick polls every 100ms: keep the step count sane
